@@ -563,4 +563,288 @@ example : (0 : ℚ) < (fun y => y) (zygoWvlWrite (6328 / 10000)) := by norm_num 
 example : readCounts ((List.replicate 834 0 ++ bodyBytes [5, -7]).take 839) 2 = some [5, 2147483640] := by decide +kernel
 example : readCounts ((List.replicate 834 0 ++ bodyBytes [5, -7]).take 833) 2 = none := by decide +kernel
 
+
+/-! ## file layout: header length and intensity block (session 3) -/
+
+/-- the file layout of the source's reader is the model's: `ilen = ac_width·ac_height·max(ac_n_buckets,1)` 16-bit native
+intensity samples start at `header_size`, the big-endian `int32` phase block starts exactly where the intensity block ends
+(no gap, no overlap), the truncation repair re-reads from that same offset and counts the missing bytes from it; frames
+are `(bucket, row, column)`, `first`/`last`/`avg` select frame 0 / −1 / the mean; the keys are the header fields of those names -/
+theorem gen_zygo_layout (iw ih ib pw ph hdr ilen plen flen : Int) :
+    zygoBuckets ib = modelBuckets ib ∧ zygoIlen iw ih ib = modelIlen iw ih ib ∧ zygoPlen pw ph = ph * pw ∧
+    zygoIntOffset hdr = modelIntOffset hdr ∧ zygoIntCount ilen = ilen ∧ zygoIntDtype = "u16native" ∧
+    zygoPhaseOffset hdr ilen = modelPhaseOffset hdr ilen ∧
+    zygoPhaseOffset hdr ilen = zygoIntOffset hdr + 2 * zygoIntCount ilen ∧
+    zygoExtOffset hdr ilen = zygoPhaseOffset hdr ilen ∧
+    zygoMissing plen flen hdr ilen = 4 * zygoPhaseCount plen - (flen - zygoPhaseOffset hdr ilen) ∧
+    zygoPhaseCount plen = plen ∧ zygoPhaseDtype = "i32big" ∧ zygoIntShape = ["ib", "ih", "iw"] ∧
+    zygoFrameSel = modelFrameSel ∧
+    zygoLayoutKeys = [("iw", "ac_width"), ("ih", "ac_height"), ("ib", "ac_n_buckets"), ("pw", "cn_width"), ("ph", "cn_height"),
+      ("header_len", "header_size")] := by
+  have hb : zygoBuckets ib = modelBuckets ib := by simp only [zygoBuckets, modelBuckets]
+  refine ⟨hb, ?_, ?_, ?_, ?_, by decide, ?_, ?_, ?_, ?_, ?_, by decide, by decide, by decide, by decide⟩
+  · simp only [zygoIlen, modelIlen, hb]
+  · simp only [zygoPlen]; ring
+  · simp only [zygoIntOffset, modelIntOffset]
+  · simp only [zygoIntCount]
+  · simp only [zygoPhaseOffset, modelPhaseOffset]
+  · simp only [zygoPhaseOffset, zygoIntOffset, zygoIntCount, modelPhaseOffset, modelIntOffset] <;> ring
+  · simp only [zygoPhaseOffset, zygoExtOffset, modelPhaseOffset]
+  · simp only [zygoMissing, zygoPhaseOffset, zygoPhaseCount, modelMissing, modelPhaseOffset] <;> ring
+  · simp only [zygoPhaseCount]
+
+/-- the header offsets the model reader uses for the layout fields are those of the generated table (big-endian, 2/2/2/4 bytes) -/
+theorem gen_layout_offsets :
+    ((rowOf "ac_width").lo, (rowOf "ac_width").size, (rowOf "ac_width").endian) = (offAcWidth, 2, .big) ∧
+    ((rowOf "ac_height").lo, (rowOf "ac_height").size, (rowOf "ac_height").endian) = (offAcHeight, 2, .big) ∧
+    ((rowOf "ac_n_buckets").lo, (rowOf "ac_n_buckets").size, (rowOf "ac_n_buckets").endian) = (offAcBuckets, 2, .big) ∧
+    ((rowOf "header_size").lo, (rowOf "header_size").size, (rowOf "header_size").endian) = (offHeaderSize, 4, .big) := by
+  decide +kernel
+
+/-- every file the library writes declares the layout it has: `header_size` reads back as 834 (the length of the header
+the writer emits), the intensity block is declared empty (`ac_width = ac_height = ac_n_buckets = 0`), so the reader's phase
+offset `header_size + 2·ilen` is 834, the first byte after the written header — for every map, spacing and wavelength -/
+theorem zygo_written_layout (a : WArgs) (vals : List Float) :
+    let f := zygoFile zygoTable zygoWriterSets a vals
+    hdrU32 f offHeaderSize = headerLen ∧ hdrU16 f offAcWidth = 0 ∧ hdrU16 f offAcHeight = 0 ∧ hdrU16 f offAcBuckets = 0 ∧
+    zygoPhaseOffset (hdrU32 f offHeaderSize) (zygoIlen (hdrU16 f offAcWidth) (hdrU16 f offAcHeight) (hdrU16 f offAcBuckets))
+      = (headerBytes zygoTable zygoWriterSets a).length := by
+  have h1 : hdrU32 (zygoFile zygoTable zygoWriterSets a vals) offHeaderSize = 834 := by
+    refine field_u32 zygoTable zygoWriterSets header_sizes_match header_fields_disjoint (rowOf "header_size") _ _ a vals (by decide) (by decide +kernel) (by decide +kernel) (by decide +kernel) (by decide +kernel) ?_
+    rw [show lookupSrc zygoWriterSets (rowOf "header_size").name = .keep from by decide +kernel]
+    simp only [Src.raw, Row.rawDflt, show (rowOf "header_size").code = .u32 from by decide +kernel,
+      show (rowOf "header_size").endian = .big from by decide +kernel, show (rowOf "header_size").dflt = .int 834 from by decide +kernel, packNum]
+    try rfl
+  have h2 : hdrU16 (zygoFile zygoTable zygoWriterSets a vals) offAcWidth = 0 := by
+    refine field_u16 zygoTable zygoWriterSets header_sizes_match header_fields_disjoint (rowOf "ac_width") _ _ a vals (by decide) (by decide +kernel) (by decide +kernel) (by decide +kernel) (by decide +kernel) ?_
+    rw [show lookupSrc zygoWriterSets (rowOf "ac_width").name = .keep from by decide +kernel]
+    simp only [Src.raw, Row.rawDflt, show (rowOf "ac_width").code = .u16 from by decide +kernel,
+      show (rowOf "ac_width").endian = .big from by decide +kernel, show (rowOf "ac_width").dflt = .int 0 from by decide +kernel, packNum]
+    try rfl
+  have h3 : hdrU16 (zygoFile zygoTable zygoWriterSets a vals) offAcHeight = 0 := by
+    refine field_u16 zygoTable zygoWriterSets header_sizes_match header_fields_disjoint (rowOf "ac_height") _ _ a vals (by decide) (by decide +kernel) (by decide +kernel) (by decide +kernel) (by decide +kernel) ?_
+    rw [show lookupSrc zygoWriterSets (rowOf "ac_height").name = .keep from by decide +kernel]
+    simp only [Src.raw, Row.rawDflt, show (rowOf "ac_height").code = .u16 from by decide +kernel,
+      show (rowOf "ac_height").endian = .big from by decide +kernel, show (rowOf "ac_height").dflt = .int 0 from by decide +kernel, packNum]
+    try rfl
+  have h4 : hdrU16 (zygoFile zygoTable zygoWriterSets a vals) offAcBuckets = 0 := by
+    refine field_u16 zygoTable zygoWriterSets header_sizes_match header_fields_disjoint (rowOf "ac_n_buckets") _ _ a vals (by decide) (by decide +kernel) (by decide +kernel) (by decide +kernel) (by decide +kernel) ?_
+    rw [show lookupSrc zygoWriterSets (rowOf "ac_n_buckets").name = .keep from by decide +kernel]
+    simp only [Src.raw, Row.rawDflt, show (rowOf "ac_n_buckets").code = .u16 from by decide +kernel,
+      show (rowOf "ac_n_buckets").endian = .big from by decide +kernel, show (rowOf "ac_n_buckets").dflt = .int 0 from by decide +kernel, packNum]
+    try rfl
+  intro f
+  refine ⟨h1, h2, h3, h4, ?_⟩
+  show zygoPhaseOffset (hdrU32 (zygoFile zygoTable zygoWriterSets a vals) offHeaderSize) _ = _
+  rw [h1, h2, h3, h4, length_headerBytes]
+  decide
+
+
+/-- the general-layout reader over the GENERATED truncation arithmetic -/
+def readCountsAtGen (hdr ilen : Nat) (f : List Nat) (n : Nat) : Option (List Int) :=
+  readCountsAtG zygoMissing zygoBacktrack zygoTailLower zygoTailValue hdr ilen f n
+
+theorem readCountsAtGen_eq : readCountsAtGen = readCountsAt := by
+  funext hdr ilen f n
+  simp only [readCountsAtGen, readCountsAt, gen_truncation.1, gen_truncation.2.1, gen_truncation.2.2.1, gen_truncation.2.2.2.1]
+
+/-- an intensity block is transparent for the height map: whatever header length `hdr` and intensity block (`2·ilen`
+bytes of ANY content) precede the phase block, the reader returns for the phase bytes `g` exactly what it returns for a
+library-written file (834-byte header, no intensity) with the same phase bytes — complete or cut anywhere -/
+theorem intensity_block_transparent (hdr ilen : Nat) (pre g : List Nat) (n : Nat) (hp : pre.length = hdr + ilen * 2)
+    (hdr0 : List Nat) (h0 : hdr0.length = headerLen) :
+    readCountsAtGen hdr ilen (pre ++ g) n = readCountsGen (hdr0 ++ g) n := by
+  rw [readCountsAtGen_eq, readCountsGen_eq, readCountsAt_rebase hdr ilen pre g n hp]
+  have := readCountsAt_rebase headerLen 0 hdr0 g n (by rw [h0]; omega)
+  rw [← this]
+  simp only [readCountsAt, readCountsAtG, readCounts, readCountsG, Nat.zero_mul, Nat.add_zero, Nat.cast_zero]
+
+/-- truncation for files WITH an intensity block (instrument files; any header length): for EVERY cut point the reader
+raises (cut inside the header or the intensity block) or warns and returns exactly the complete samples, all others invalid -/
+theorem truncation_safe_layout (hdr ilen : Nat) (pre : List Nat) (s : List Int) (hp : pre.length = hdr + ilen * 2)
+    (hs : ∀ j, j < s.length → -2147483648 ≤ s.getD j 0 ∧ s.getD j 0 < 2147483648)
+    (k : Nat) (hk : k < hdr + ilen * 2 + 4 * s.length) :
+    (k < hdr + ilen * 2 ∧ readCountsAtGen hdr ilen ((pre ++ bodyBytes s).take k) s.length = none) ∨
+    (hdr + ilen * 2 ≤ k ∧ readWarnsAt hdr ilen ((pre ++ bodyBytes s).take k) s.length = true ∧
+      ∃ r, readCountsAtGen hdr ilen ((pre ++ bodyBytes s).take k) s.length = some r ∧ r.length = s.length ∧
+      ∀ j, j < s.length → r.getD j 0 = if hdr + ilen * 2 + 4 * (j + 1) ≤ k then s.getD j 0 else Generated.C14.zygoInvalid) := by
+  have hlen : ((pre ++ bodyBytes s).take k).length = k := by
+    rw [List.length_take, List.length_append, length_bodyBytes, hp]; omega
+  by_cases hc : k < hdr + ilen * 2
+  · left; refine ⟨hc, ?_⟩
+    rw [readCountsAtGen_eq]
+    simp only [readCountsAt, readCountsAtG, hlen, if_pos hc]
+  · right
+    have hc' : hdr + ilen * 2 ≤ k := by omega
+    refine ⟨hc', ?_, ?_⟩
+    · simp only [readWarnsAt, hlen, Bool.and_eq_true, decide_eq_true_eq]; exact ⟨hc', hk⟩
+    · have htake : (pre ++ bodyBytes s).take k = pre ++ (bodyBytes s).take (k - (hdr + ilen * 2)) := by
+        rw [List.take_append, ← hp]
+        rw [List.take_of_length_le (by omega)]
+      obtain ⟨z, hz⟩ : ∃ z : List Nat, z.length = headerLen := ⟨List.replicate headerLen 0, List.length_replicate⟩
+      have htake0 : (z ++ bodyBytes s).take (headerLen + (k - (hdr + ilen * 2))) = z ++ (bodyBytes s).take (k - (hdr + ilen * 2)) := by
+        rw [List.take_append, List.take_of_length_le (by omega), hz, Nat.add_sub_cancel_left]
+      rw [htake, intensity_block_transparent hdr ilen pre _ s.length hp z hz, ← htake0]
+      rcases truncation_safe z s hz hs (headerLen + (k - (hdr + ilen * 2))) (by omega) with h | ⟨h1, _, _, r, hr1, hr2, hr3⟩
+      · omega
+      · refine ⟨r, hr1, hr2, fun j hj => ?_⟩
+        rw [hr3 j hj]
+        by_cases hq : hdr + ilen * 2 + 4 * (j + 1) ≤ k
+        · rw [if_pos hq, if_pos (by omega)]
+        · rw [if_neg hq, if_neg (by omega)]
+
+/-- … and the complete file reads back every sample without a warning, whatever the intensity block holds -/
+theorem full_file_layout_reads_back (hdr ilen : Nat) (pre : List Nat) (s : List Int) (hp : pre.length = hdr + ilen * 2)
+    (hs : ∀ j, j < s.length → -2147483648 ≤ s.getD j 0 ∧ s.getD j 0 < 2147483648) :
+    ∃ r, readCountsAtGen hdr ilen (pre ++ bodyBytes s) s.length = some r ∧ r.length = s.length ∧
+      (∀ j, j < s.length → r.getD j 0 = s.getD j 0) ∧ readWarnsAt hdr ilen (pre ++ bodyBytes s) s.length = false := by
+  obtain ⟨z, hz⟩ : ∃ z : List Nat, z.length = headerLen := ⟨List.replicate headerLen 0, List.length_replicate⟩
+  obtain ⟨r, h1, h2, h3, _⟩ := full_file_reads_back z s hz hs
+  refine ⟨r, ?_, h2, h3, ?_⟩
+  · rw [intensity_block_transparent hdr ilen pre _ s.length hp z hz]; exact h1
+  · simp only [readWarnsAt, List.length_append, length_bodyBytes, hp]
+    simp
+
+example : readCountsAt 840 3 ((List.replicate 840 7 ++ intensityBytes [1, 2, 65535] ++ bodyBytes [5, -7]).take 851) 2
+    = some [5, 2147483640] := by decide +kernel
+example : readCountsAt 840 3 ((List.replicate 840 7 ++ intensityBytes [1, 2, 65535] ++ bodyBytes [5, -7]).take 845) 2 = none := by decide +kernel
+example : (List.range 3).map (intensityAt (List.replicate 840 7 ++ intensityBytes [1, 2, 65535]) 840) = [1, 2, 65535] := by decide +kernel
+
+/-! ## declared scaling factors and resolution codes (session 3) -/
+
+/-- the resolution table of the source is the table the model reader looks the header code up in -/
+theorem gen_phase_res_table : zygoPhaseRes = modelPhaseRes := by decide
+
+/-- every resolution factor of the source's table is positive (so every declared step below is) -/
+theorem phase_res_pos (res : Nat) (R : Int) (h : (res, R) ∈ zygoPhaseRes) : 0 < R := by
+  simp only [zygoPhaseRes, List.mem_cons, Prod.mk.injEq, List.mem_nil_iff, or_false] at h
+  omega
+
+/-- declared factors: a file that declares scale factor `S`, obliquity `O` and a resolution code with factor `R` reads
+every count as `S·O·32768/R` times what a library-written file (unit factors, code 1) reads for the same count — the
+statement the correspondence checks on instrument-style files, here over the source's own scaling formula -/
+theorem zygo_declared_factors (n W S O : ℚ) (res : Nat) (R : Int) (h : (res, R) ∈ zygoPhaseRes) :
+    Generated.C14.zygoReadValue n W S O R = Generated.C14.zygoReadValue n W 1 1 phaseRes1 * (S * O * phaseRes1 / R) := by
+  have hR : (0 : ℚ) < (R : ℚ) := by exact_mod_cast phase_res_pos res R h
+  simp only [Generated.C14.zygoReadValue, Model.C14.zygoReadValue, phaseRes1]
+  push_cast
+  field_simp
+
+/-- one quantisation step, for EVERY resolution code of the table and every declared positive scale / obliquity /
+wavelength: counts `trunc(x / step)` with `step` = the value the reader gives one count read back within one step of `x`
+(the library's writer is the case `S = O = 1`, code 1: `zygo_quant_error`) -/
+theorem zygo_quant_error_any_resolution (x W S O : ℚ) (res : Nat) (R : Int) (h : (res, R) ∈ zygoPhaseRes)
+    (hW : 0 < W) (hS : 0 < S) (hO : 0 < O) :
+    |x - Generated.C14.zygoReadValue (truncRat (x / Generated.C14.zygoReadValue 1 W S O R)) W S O R|
+      < Generated.C14.zygoReadValue 1 W S O R := by
+  have hR : (0 : ℚ) < (R : ℚ) := by exact_mod_cast phase_res_pos res R h
+  have hq : 0 < Generated.C14.zygoReadValue 1 W S O R := by
+    simp only [Generated.C14.zygoReadValue, Model.C14.zygoReadValue]; positivity
+  have e : ∀ n : ℚ, Generated.C14.zygoReadValue n W S O R = Generated.C14.zygoReadValue 1 W S O R * n := by
+    intro n; simp only [Generated.C14.zygoReadValue, Model.C14.zygoReadValue]; ring
+  rw [e]
+  exact quant_error x _ hq
+
+example : ((2 : Nat), (131072 : Int)) ∈ zygoPhaseRes := by decide
+example : phaseResOf modelPhaseRes 3 = none ∧ phaseResOf modelPhaseRes 0 = some 4096 := by decide
+
+/-! ## re-saving a loaded map; Code V wavelength units (session 3) -/
+
+theorem truncRat_intCast (n : ℤ) : truncRat (n : ℚ) = n := by
+  simp only [truncRat]; split_ifs <;> simp
+
+/-- saving a map that was read from a file: in exact arithmetic the writer's counts of the reader's values are the
+counts of the file again (`trunc(n·q / q) = n`), for every count, wavelength rounding and step — the one-count loss the
+correspondence observes on re-saved interferograms (family `ifg.history`) is floating-point only and stays within one step -/
+theorem zygo_requantise_exact (r32 : ℚ → ℚ) (wvl : ℚ) (n : ℤ) (hW : r32 (zygoWvlWrite wvl) ≠ 0) :
+    truncRat (Generated.C14.zygoWritePre r32 (Generated.C14.zygoReadValue n (r32 (zygoWvlWrite wvl)) 1 1 phaseRes1) wvl) = n := by
+  rw [zygo_step_consistent r32 _ wvl hW]
+  have e : Generated.C14.zygoReadValue n (r32 (zygoWvlWrite wvl)) 1 1 phaseRes1
+      / Generated.C14.zygoReadValue 1 (r32 (zygoWvlWrite wvl)) 1 1 phaseRes1 = (n : ℚ) := by
+    simp only [Generated.C14.zygoReadValue, Model.C14.zygoReadValue, phaseRes1]
+    push_cast
+    field_simp
+  rw [e, truncRat_intCast]
+
+/-- Code V units: a file that declares a physical wavelength `w` with the scale given per that wavelength (`SSZ·w`)
+reads every count as the same nanometres as the library's `WVL 1.0` file — over the source's own scaling formula -/
+theorem codev_unit_invariant (n w ssz : ℚ) (hw : w ≠ 0) (hs : ssz ≠ 0) :
+    Generated.C14.cvReadValue n w (ssz * w) = Generated.C14.cvReadValue n 1 ssz := by
+  simp only [Generated.C14.cvReadValue, Model.C14.cvReadValue]
+  field_simp
+
+example : (fun y : ℚ => y) (zygoWvlWrite (6328 / 10000)) ≠ 0 := by norm_num [zygoWvlWrite]
+
+/-! ## intensity read-back; Code V preamble (session 3) -/
+
+/-- the intensity block reads back: sample `i` of a block of 16-bit values stored little-endian after a header (any prefix)
+is the value stored, whatever follows the block -/
+theorem intensity_roundtrip (pre v rest : List Nat) (hv : ∀ x ∈ v, x < 65536) (i : Nat) (hi : i < v.length) :
+    intensityAt (pre ++ (intensityBytes v ++ rest)) pre.length i = v.getD i 0 :=
+  C14L.intensity_roundtrip pre v rest hv i hi
+
+/-- the comment loop of the source's Code V reader is the model's: strip blanks and tabs, test for `!`, skip to the character
+after the next newline (raise when there is none); then title and header are the next two lines -/
+theorem gen_codev_preamble :
+    cvCommentStrip = cvStripChars.map Char.toNat ∧ cvCommentMarkerCode = Model.C14.cvCommentMarker.toNat ∧
+    cvCommentLoopOk = true ∧ cvTitleHeaderSplit = true := by decide
+
+/-- Code V preamble, over the strip characters and marker GENERATED from the source: any number of comment lines (each
+starting, after those characters, with the marker) is skipped, the next line is the title, the next the header, the rest
+the data block — for every title, header and data text -/
+theorem codev_preamble_roundtrip (cs : List (List Char))
+    (hc : ∀ l ∈ cs, isBangG (cvCommentStrip.map Char.ofNat) (Char.ofNat cvCommentMarkerCode) l = true ∧ '\n' ∉ l)
+    (title hdr data : List Char) (ht : '\n' ∉ title) (hh : '\n' ∉ hdr)
+    (hr : isBangG (cvCommentStrip.map Char.ofNat) (Char.ofNat cvCommentMarkerCode) (title ++ '\n' :: (hdr ++ '\n' :: data)) = false) :
+    cvPreambleG (cvCommentStrip.map Char.ofNat) (Char.ofNat cvCommentMarkerCode)
+      (cs.flatMap (· ++ ['\n']) ++ (title ++ '\n' :: (hdr ++ '\n' :: data))) = some (title, hdr, data) :=
+  preamble_roundtrip _ _ cs hc title hdr data ht hh hr
+
+example : cvPreamble [' ', '!', 'a', '\n', '!', '\n', 'T', ' ', '1', '\n', 'G', '\n', '5', '\n'] = some (['T', ' ', '1'], ['G'], ['5', '\n']) := by decide
+example : cvPreamble ['!', ' ', 'a'] = none := by decide
+
+/-! ## order-free Code V headers; frame selection (session 3, second pass) -/
+
+/-- the keyword scan accepts ANY sequence of keyword groups (a keyword of the table followed by as many values as the table
+says) — in any order, any number of them: acceptance does not depend on the order the writer happens to use -/
+theorem acceptsHeader_groups (table : List (String × Nat)) (gs : List (String × List String))
+    (h : ∀ g ∈ gs, ∃ p, table.find? (fun p => p.1 == g.1) = some p ∧ p.2 = g.2.length)
+    (fuel : Nat) (hf : gs.length ≤ fuel) :
+    acceptsHeader table fuel (gs.flatMap fun g => g.1 :: g.2) = true := by
+  induction gs generalizing fuel with
+  | nil => cases fuel <;> simp [acceptsHeader]
+  | cons g gs ih =>
+    cases fuel with
+    | zero => simp at hf
+    | succ f =>
+      obtain ⟨p, hp, hl⟩ := h g (by simp)
+      simp only [List.flatMap_cons, List.cons_append, acceptsHeader, hp, hl, List.length_append, List.drop_left]
+      simp only [ge_iff_le, Nat.le_add_right, decide_true, Bool.true_and]
+      exact ih (fun x hx => h x (by simp [hx])) f (by simpa using hf)
+
+/-- Code V headers in any keyword order: every header made of keyword groups of the reader's GENERATED table is accepted,
+whatever their order (the writer's order, any permutation of it, other programs' orders); the keyword test of the source
+is on the upper-cased token (the translator only recognises `params[i].upper() == KEY` tests), so case is immaterial too -/
+theorem codev_header_order_free (gs : List (String × List String))
+    (h : ∀ g ∈ gs, cvReaderTokens.find? (fun p => p.1 == g.1) = some (g.1, g.2.length)) :
+    acceptsHeader cvReaderTokens gs.length (gs.flatMap fun g => g.1 :: g.2) = true :=
+  acceptsHeader_groups cvReaderTokens gs (fun g hg => ⟨_, h g hg, rfl⟩) gs.length (Nat.le_refl _)
+
+example : ∀ g ∈ [("NDA", ["-32768"]), ("SSZ", ["2.5"]), ("WVL", ["0.5"]), ("SUR", []), ("GRD", ["3", "2"])],
+    cvReaderTokens.find? (fun p => p.1 == g.1) = some (g.1, g.2.length) := by decide
+
+/-- frame selection over the GENERATED action table: `first` returns frame 0 and `last` frame `ib − 1` of the `ib ≥ 1` frames
+of `px` pixels each (Python index −1), `avg` is the per-pixel mean branch -/
+theorem select_frame_first_last (ib px : Nat) (raw : Array Nat) (hib : 1 ≤ ib) :
+    (zygoFrameSel.lookup "first").map (fun s => selectFrame s ib px raw)
+      = some ((List.range px).map fun i => Float.ofNat (raw.getD (0 * px + i) 0)) ∧
+    (zygoFrameSel.lookup "last").map (fun s => selectFrame s ib px raw)
+      = some ((List.range px).map fun i => Float.ofNat (raw.getD ((ib - 1) * px + i) 0)) ∧
+    zygoFrameSel.lookup "avg" = some none := by
+  have e : zygoFrameSel = modelFrameSel := by decide
+  have h1 : (((ib : Int) + -1).toNat) = ib - 1 := by omega
+  rw [e]
+  refine ⟨?_, ?_, by decide⟩
+  · simp [modelFrameSel, List.lookup, selectFrame]
+  · simp [modelFrameSel, List.lookup, selectFrame, h1]
 end C14
